@@ -114,7 +114,25 @@ func startChild(name string) *child {
 	return &child{cmd: cmd, stdin: stdin, stdout: bufio.NewReaderSize(stdout, 1<<20)}
 }
 
+// stop ends a worker: closing its stdin lets it return from main (so that a -cover build flushes its
+// counters); a worker that does not exit by itself within two seconds is killed.
 func (c *child) stop() {
+	c.stdin.Close()
+	done := make(chan struct{})
+	go func() {
+		_ = c.cmd.Wait()
+		close(done)
+	}()
+	select {
+	case <-done:
+	case <-time.After(2 * time.Second):
+		_ = c.cmd.Process.Kill()
+		<-done
+	}
+}
+
+// kill ends a worker that is known to be stuck or dead
+func (c *child) kill() {
 	c.stdin.Close()
 	_ = c.cmd.Process.Kill()
 	_ = c.cmd.Wait()
@@ -203,7 +221,7 @@ func supervise(name string, e *Engine, inPath, outPath string, j int) {
 					res, bad := c.ask(lines[i], timeout)
 					c.served++
 					if bad != "" {
-						c.stop()
+						c.kill()
 						c = nil
 						res = bad
 					}
